@@ -616,7 +616,12 @@ class Compiler:
 
     @_compile.register
     def _constant(self, node: ast.Constant):
-        return EvalConstant(node.value)
+        value = node.value
+        if isinstance(value, list):
+            # The result rows deliver the constant as it is: do not
+            # hand out the list held by the parsed statement.
+            value = list(value)
+        return EvalConstant(value)
 
     @_compile.register
     def _placeholder(self, node: ast.Placeholder):
